@@ -4,6 +4,7 @@ import (
 	"fmt"
 	"go/token"
 	"go/types"
+	"strings"
 
 	"govc/smt"
 
@@ -77,7 +78,10 @@ func (e *Engine) execInstr(f *frame, ins ssa.Instruction) {
 		arr := e.operand(f, x.X)
 		idx := e.toInt(e.operand(f, x.Index))
 		if isString(arr.T) {
-			bail("string index value")
+			e.oblige("bounds", "string index", X.Ult(idx, arr.C[2]), x.Pos())
+			h := e.heap(f.st, "arr:uint8/", smt.BV(8))
+			f.vals[x] = e.intVal(x.Type(), X.Select(X.Select(h, arr.C[0]), X.BVAdd(arr.C[1], idx)))
+			return
 		}
 		at := arr.T.Underlying().(*types.Array)
 		e.oblige("bounds", "index", X.Ult(idx, X.Const(uint64(at.Len()), 64)), x.Pos())
@@ -354,6 +358,15 @@ func (e *Engine) boxVal(v Val) *smt.Term {
 }
 
 func (e *Engine) unboxVal(t types.Type, payload *smt.Term) Val {
+	// unbox(box(x)) = x, also through conditionals
+	if payload.Op == "app" && payload.Name == strings.ReplaceAll("box|"+typeKey(t), "|", "!") && len(payload.Args) == len(comps(t)) {
+		r := Val{T: t, C: append([]*smt.Term{}, payload.Args...)}
+		e.setPtrMeta(&r)
+		return r
+	}
+	if payload.Op == "ite" {
+		return e.iteVal(payload.Args[0], e.unboxVal(t, payload.Args[1]), e.unboxVal(t, payload.Args[2]))
+	}
 	r := Val{T: t}
 	for i, c := range comps(t) {
 		r.C = append(r.C, e.X.App(fmt.Sprintf("unbox|%s|%d", typeKey(t), i), c.Sort, payload))
